@@ -1405,3 +1405,81 @@ pub fn k_c12_card_token_bytes_playback() {
     crate::ob::extra::card_token_bytes(&mut KaniSrc);
 }
 
+#[kani::proof]
+#[kani::unwind(15)]
+pub fn k_c06_link_rep_distinct() {
+    crate::ob::c06::link_rep_distinct(&mut KaniSrc);
+}
+
+#[kani::proof]
+#[kani::unwind(15)]
+pub fn k_c06_link_rep_distinct_playback() {
+    unsafe { crate::src::REACH_OFF = true; }
+    crate::ob::c06::link_rep_distinct(&mut KaniSrc);
+}
+
+#[kani::proof]
+#[kani::unwind(15)]
+pub fn k_c06_link_rep_quads() {
+    crate::ob::c06::link_rep_quads(&mut KaniSrc);
+}
+
+#[kani::proof]
+#[kani::unwind(15)]
+pub fn k_c06_link_rep_quads_playback() {
+    unsafe { crate::src::REACH_OFF = true; }
+    crate::ob::c06::link_rep_quads(&mut KaniSrc);
+}
+
+#[kani::proof]
+#[kani::unwind(15)]
+pub fn k_c06_link_rep_full_house() {
+    crate::ob::c06::link_rep_full_house(&mut KaniSrc);
+}
+
+#[kani::proof]
+#[kani::unwind(15)]
+pub fn k_c06_link_rep_full_house_playback() {
+    unsafe { crate::src::REACH_OFF = true; }
+    crate::ob::c06::link_rep_full_house(&mut KaniSrc);
+}
+
+#[kani::proof]
+#[kani::unwind(15)]
+pub fn k_c06_link_rep_trips() {
+    crate::ob::c06::link_rep_trips(&mut KaniSrc);
+}
+
+#[kani::proof]
+#[kani::unwind(15)]
+pub fn k_c06_link_rep_trips_playback() {
+    unsafe { crate::src::REACH_OFF = true; }
+    crate::ob::c06::link_rep_trips(&mut KaniSrc);
+}
+
+#[kani::proof]
+#[kani::unwind(15)]
+pub fn k_c06_link_rep_two_pair() {
+    crate::ob::c06::link_rep_two_pair(&mut KaniSrc);
+}
+
+#[kani::proof]
+#[kani::unwind(15)]
+pub fn k_c06_link_rep_two_pair_playback() {
+    unsafe { crate::src::REACH_OFF = true; }
+    crate::ob::c06::link_rep_two_pair(&mut KaniSrc);
+}
+
+#[kani::proof]
+#[kani::unwind(15)]
+pub fn k_c06_link_rep_pair() {
+    crate::ob::c06::link_rep_pair(&mut KaniSrc);
+}
+
+#[kani::proof]
+#[kani::unwind(15)]
+pub fn k_c06_link_rep_pair_playback() {
+    unsafe { crate::src::REACH_OFF = true; }
+    crate::ob::c06::link_rep_pair(&mut KaniSrc);
+}
+
